@@ -448,6 +448,8 @@ class S256Point(Point):
     @classmethod
     def parse_xonly(cls, xonly_bin):
         """returns a Point object from a XONLY pubkey"""
+        if len(xonly_bin) != 32:
+            raise ValueError(f"Invalid XONLY pubkey length {len(xonly_bin)}")
         n = big_endian_to_int(xonly_bin)
         if n == 0:
             # point at infinity
